@@ -2,6 +2,8 @@
 
 from __future__ import annotations
 
+from re import fullmatch as re_fullmatch
+
 import ast
 
 from ..model import AnalysisError, callee, dotted, u, walk_no_nested
@@ -253,20 +255,68 @@ def r3(ctx):
     t = u(inc.node)
     ok = "lang = kwargs['state'].langs[kwargs['filename']]" in t and "kwargs['state'].insert_file(include_file, lang)" in t
     ctx.soft(ok, "preprocessor:IncludeNode.evaluate_for_platform:passes-language", "the language recorded for the including file must be handed to insert_file", inc.loc())
+    from ..spec import atoms as _atoms, call_args as _call_args, tab as _tab, vt as _vtt
+
     pf = repo.func("file_parser", "FileParser.parse_file")
-    gs = [c for c in pf.calls() if callee(c) == "get_file_source"]
-    ok = len(gs) == 1 and [u(a) for a in gs[0].args] == ["filename", "language"]
-    ctx.soft(ok, "file_parser:FileParser.parse_file:language-to-source", "the inherited language must select the line source", pf.loc())
+    n_src = 0
+    for p in _tab(pf, unroll=1):
+        for k in _atoms(p):
+            i = k.find("get_file_source(")
+            if i < 0:
+                continue
+            depth = 0
+            for j in range(i + len("get_file_source"), len(k)):
+                depth += k[j] == "("
+                depth -= k[j] == ")"
+                if depth == 0:
+                    break
+            ca = _call_args(k[i : j + 1], "get_file_source")
+            n_src += 1
+            pos, kw = ca if ca else ([], {})
+            lang_arg = pos[1] if len(pos) > 1 else kw.get("assumed_lang")
+            ctx.check(lang_arg == pf.params[2] if len(pf.params) > 2 else False, "file_parser:FileParser.parse_file:language-to-source", f"the inherited language must select the line source: get_file_source({', '.join(pos)}{', ' if kw else ''}{', '.join(f'{a}={b}' for a, b in kw.items())})", pf.loc())
+            break
+    if not n_src:
+        raise AnalysisError("parse_file: no decision on get_file_source(...) found")
+    # get_file_source, as a decision table: the subject is the inherited language when there is one, else the language
+    # of the extension; subject -> source by the table below; anything else raises
     g = repo.func("file_source", "get_file_source")
-    t = u(g.node)
-    ok = "if assumed_lang:\n        lang = assumed_lang" in t or _re.search(r"if assumed_lang:\s+lang = assumed_lang", t) is not None
-    ctx.soft(ok, "file_source:get_file_source:assumed-language-wins", "an inherited language must override the extension", g.loc())
-    arms = {}
-    for n in walk_no_nested(g.node):
-        if isinstance(n, ast.If) and isinstance(n.test, ast.Compare) and dotted(n.test.left) == "lang":
-            r = [s.value for s in n.body if isinstance(s, ast.Return)]
-            if r:
-                arms[u(n.test.comparators[0])] = u(r[0])
-    ok = arms.get("'fortran-free'") == "fortran_file_source" and arms.get("['c', 'c++']") == "c_file_source"
-    ctx.soft(ok, "file_source:get_file_source:arms", f"language -> source table: {arms}", g.loc())
+    pth, al = g.params[0], g.params[1]
+    EXT = f"FileLanguage({pth}).get_language()"
+    SRC = {"fortran-free": "fortran_file_source", "c": "c_file_source", "c++": "c_file_source", "asm": "asm_file_source"}
+    n_arm = 0
+    for p in _tab(g, unroll=1):
+        at = _atoms(p)
+        inh = at.get(al)
+        if inh is None:
+            inh = next((not v for k, v in at.items() if k in (f"None Eq {al}", f"{al} Eq None")), None)
+        subj_want = al if inh else EXT
+        tests = {}
+        bad = None
+        for k, v in at.items():
+            m = re_fullmatch(r"'([\w+-]+)' Eq (.+)", k) or None
+            if m is None:
+                m2 = re_fullmatch(r"(.+) Eq '([\w+-]+)'", k)
+                m = (m2.group(2), m2.group(1)) if m2 else None
+            else:
+                m = (m.group(1), m.group(2))
+            if m is None:
+                continue
+            if m[1] != subj_want:
+                bad = m[1]
+            tests[m[0]] = v
+        if inh is None and tests:
+            raise AnalysisError(f"get_file_source: whether a language was inherited is not examined on {p.describe()[:120]}")
+        if bad is not None:
+            ctx.violation("file_source:get_file_source:assumed-language-wins", f"with{'' if inh else 'out'} an inherited language the source is chosen by `{bad}`: an inherited language must override the extension (and only then)", g.loc())
+            continue
+        hit = [x for x, v in tests.items() if v]
+        n_arm += 1
+        if p.result[0] == "return":
+            got = _vtt(p.result[1])
+            ctx.check(len(hit) == 1 and SRC.get(hit[0]) == got, f"file_source:get_file_source:arms:{hit[0] if hit else '-'}", f"language {hit} -> {got}; the table is {SRC}", g.loc())
+        else:
+            ctx.check(not hit and p.result[0] == "raise", "file_source:get_file_source:arms:unknown", f"an unknown language must raise: {p.describe()[:160]}", g.loc())
+    if n_arm < 6:
+        raise AnalysisError(f"get_file_source: only {n_arm} arms understood")
     ctx.floor(7)
